@@ -27,6 +27,8 @@ For each change k = 1..{n} deliver, under {wt}/_seed/k/:
   - demo.py : a small self-contained program that is run as  `cd <tree> && PYTHONPATH=<tree> /venv/bin/python _seed/k/demo.py`  (it must not hard-code the tree path; use the soprano importable from PYTHONPATH). It must exit 0 on the UNCHANGED tree and exit non-zero (with a short message saying what went wrong) on the tree with the change applied. It must test the property as stated above (not an implementation detail).
   - meta.json : {{"property": "{pid}", "title": short title, "clause": which clause of the property is broken, "needs": what is needed for it to manifest, "files": [changed files]}}
 
+Do NOT use `git stash` (the stash is shared by all worktrees of the repository and other agents work in parallel); use `git apply`, `git apply -R` and `git checkout -- .` instead.
+
 Verify everything yourself before finishing: for each k, from a clean worktree: demo passes (exit 0); apply the patch; demo fails (non-zero); the test suite gives 124 passed / the same 2 failed; then `git checkout -- .` to restore. Leave the worktree clean (only the untracked _seed/ directory added). Python: use /venv/bin/python (numpy, scipy, ase are available; there is no network).
 
 Final answer: for each change, one paragraph: what it changes, what it needs to manifest, and the verification results you observed (demo clean / demo patched / pytest counts).""")
